@@ -334,6 +334,35 @@ fn run_case(line: &str) -> (String, Vec<(String, String)>) {
         if reference == Out::Beyond && os == Out::Err {
             tag.push_str(" finding:pq-push-range-beyond-file");
         }
+        // the page index range recorded in the (corrupted) column chunks reaches into the footer
+        // metadata: the one-shot reader rejects that, the push decoder parses whatever bytes are there
+        if matches!(reference, Out::Meta(_)) && os == Out::Err && n >= 8 {
+            let ml = u32::from_le_bytes(file[n - 8..n - 4].try_into().unwrap()) as u64;
+            let md_start = (n as u64).saturating_sub(8 + ml);
+            if let Out::Meta(m0) = push_run("0", &file, &Sched::Exact) {
+                let (cp, op) = policies(pol);
+                let mut end = 0u64;
+                for c in m0.row_groups().iter().flat_map(|r| r.columns()) {
+                    if cp != PageIndexPolicy::Skip {
+                        if let (Some(o), Some(l)) = (c.column_index_offset(), c.column_index_length()) {
+                            if o >= 0 && l >= 0 {
+                                end = end.max(o as u64 + l as u64);
+                            }
+                        }
+                    }
+                    if op != PageIndexPolicy::Skip {
+                        if let (Some(o), Some(l)) = (c.offset_index_offset(), c.offset_index_length()) {
+                            if o >= 0 && l >= 0 {
+                                end = end.max(o as u64 + l as u64);
+                            }
+                        }
+                    }
+                }
+                if end > md_start && end <= n as u64 {
+                    tag.push_str(" finding:pq-push-index-overlaps-metadata");
+                }
+            }
+        }
         fails.push((format!("one-shot {} != push {}", os.short(), reference.short()), tag));
     }
     (given.short(), fails)
